@@ -399,16 +399,21 @@ def nested_target_in_source(sc, links=None):
     return False
 
 
-def nested_source_below_linked(sc, links=None):
-    """signature of the third open finding: a link source is a nested object (child of a deep group) whose enclosing
-    component takes part in a link itself (so its key can place the enclosing group before the link's target)"""
+def nested_source_keys(sc, links=None):
+    """keys of link sources that are nested objects (the child of a deep class group).  Third open finding: once the
+    enclosing group has been instantiated (because a link key or the depth sort places it before the link's target),
+    cfg[<nested source>] is gone and applying the link raises NSKeyError naming exactly that key."""
     links = sc["links"] if links is None else links
-    linked = {obj for l in links for obj, _ in l["sources"]} | {l["target"][0] for l in links}
-    for l in links:
-        for s, _ in l["sources"]:
-            if obj_level(s) >= 1 and any(s.startswith(o + "/") for o in linked):
-                return True
-    return False
+    return sorted({source_key(sc, [s, None]) for l in links for s, _ in l["sources"] if obj_level(s) >= 1})
+
+
+def nested_source_below_linked(sc, links=None):
+    return bool(nested_source_keys(sc, links))
+
+
+def is_nested_source_failure(sc, fails):
+    keys = nested_source_keys(sc)
+    return bool(keys) and bool(fails) and all("NSKeyError" in f and any('Key "%s"' % k in f for k in keys) for f in fails)
 
 
 def build_parser(sc):
@@ -950,7 +955,7 @@ def classify_e2e(ctx, sc, fails, cyclic, state, origin):
     fid = None
     if nested_target_in_source(sc):
         fid = FINDING_CYCLE if cyclic else FINDING_ORDER
-    elif not cyclic and nested_source_below_linked(sc) and all("NSKeyError" in f for f in fails):
+    elif not cyclic and is_nested_source_failure(sc, fails):
         fid = FINDING_NSRC
     if fid and ctx.is_open(fid):
         ctx.known(fid, "%s (e.g. links %s)" % (fails[0], json.dumps([[[source_key(sc, s) for s in l["sources"]], target_key(sc, l["target"])] for l in sc["links"]])[:200]))
